@@ -225,6 +225,15 @@ func (g *Gen) inputRaw(n *Node) IVal {
 			return g.wrong()
 		}
 	case KTime:
+		if eq := timeEqTest(n); eq != nil && r.Fork(0x7e9).P(35) {
+			// the instant an EQ test names, written in another zone: the same instant, so the test holds
+			fr := r.Fork(0x7ea)
+			tz := eq.T.In(time.FixedZone("", 3600*(fr.Intn(5)-2)+1800*fr.Intn(2)))
+			if n.Layout != "" || n.Coercer != "" || fr.P(50) {
+				return timeV(tz)
+			}
+			return strV(tz.Format(time.RFC3339))
+		}
 		c := r.Intn(100)
 		t := baseTime.Add(time.Duration(r.Intn(400)-200) * time.Hour)
 		switch {
@@ -427,9 +436,16 @@ func (g *Gen) destRaw(n *Node, t reflect.Type, populated bool) reflect.Value {
 				// the zero instant in another zone: not the zero value of time.Time, a value like any other
 				tv = time.Time{}.In(time.FixedZone("X", 3600*(1+f.Intn(3))))
 			}
+			if eq := timeEqTest(n); eq != nil && r.Fork(0x7eb).P(35) {
+				// the instant an EQ test names, in another zone
+				tv = eq.T.In(time.FixedZone("", 3600*(r.Fork(0x7ec).Intn(5)-2)+1800))
+			}
 			v.Set(reflect.ValueOf(tv))
 		}
 	case KPtr:
+		if g.underLong > 0 && !populated && r.P(95) {
+			break // (nil)
+		}
 		if !zero && (populated || !r.P(15)) {
 			p := reflect.New(t.Elem())
 			p.Elem().Set(g.DestValue(n.Elem, t.Elem(), populated))
@@ -443,6 +459,11 @@ func (g *Gen) destRaw(n *Node, t reflect.Type, populated bool) reflect.Value {
 			}
 			if IsPrim(n.Elem.Kind) && r.P(4) {
 				k = Pick(r, []int{31, 32, 33, 63, 64, 65, 66, 100, 129, 257})
+			}
+			if g.longNil && !IsPrim(n.Elem.Kind) {
+				k = Pick(r, []int{63, 64, 65, 66, 80, 130})
+				g.underLong++
+				defer func() { g.underLong-- }()
 			}
 			s := reflect.MakeSlice(t, k, k)
 			for i := 0; i < k; i++ {
@@ -594,4 +615,17 @@ func StructInput(in IVal, variant int) (vis IVal, mk func() any, ok bool) {
 		return v.Interface()
 	}
 	return vis, mk, true
+}
+
+// timeEqTest returns the first built-in EQ test of a time node (nil if none).
+func timeEqTest(n *Node) *TestSpec {
+	if n.Kind != KTime {
+		return nil
+	}
+	for i := range n.Tests {
+		if n.Tests[i].Builtin == "eq" && n.Tests[i].User == nil {
+			return &n.Tests[i]
+		}
+	}
+	return nil
 }
